@@ -274,7 +274,7 @@ func And(xs ...*Term) *Term {
 		}
 	}
 	for _, x := range out {
-		if seen[Not(x).id] && Not(x).Op != "not" || (x.Op == "not" && seen[x.Args[0].id]) {
+		if x.Op == "not" && seen[x.Args[0].id] {
 			return False
 		}
 	}
@@ -468,7 +468,77 @@ func linForm(t *Term) (*Term, *big.Int) {
 	return t, big.NewInt(0)
 }
 
+var eqCache = map[[2]int]*Term{}
+
+// lowerBounds records facts  sym >= base + k  for allocation-counter symbols
+// (set by the executor); they let object identities be compared syntactically.
+type lowerBound struct {
+	base *Term // nil: constant
+	k    *big.Int
+}
+
+var lowerBounds = map[int]lowerBound{}
+
+func NoteLowerBound(sym, prev *Term) {
+	b, k := linForm(prev)
+	lowerBounds[sym.id] = lowerBound{b, k}
+}
+
+// upperBounds records facts  t < bound  for object ids read from memory.
+var upperBounds = map[int]*Term{}
+
+func NoteUpperBound(t, bound *Term) { upperBounds[t.id] = bound }
+
+// knownGreater reports that x > y follows from the recorded bounds.
+func knownGreater(x, y *Term) bool {
+	if ub, ok := upperBounds[y.id]; ok {
+		// y < ub <= x ?
+		if ub == x || knownGreater(x, ub) {
+			return true
+		}
+		bu, ku := linForm(ub)
+		bx, kx := linForm(x)
+		if bu == bx && kx.Cmp(ku) >= 0 {
+			return true
+		}
+	}
+	bx, kx := linForm(x)
+	by, ky := linForm(y)
+	k := new(big.Int).Set(kx)
+	for i := 0; i < 64; i++ {
+		if bx == by {
+			return k.Cmp(ky) > 0
+		}
+		if bx == nil {
+			return false
+		}
+		lb, ok := lowerBounds[bx.id]
+		if !ok {
+			return false
+		}
+		bx = lb.base
+		k = new(big.Int).Add(k, lb.k)
+	}
+	return false
+}
+
 func Eq(a, b *Term) *Term {
+	if a == b {
+		return True
+	}
+	if a.Op == "ite" || b.Op == "ite" {
+		k := [2]int{a.id, b.id}
+		if r, ok := eqCache[k]; ok {
+			return r
+		}
+		r := eq1(a, b)
+		eqCache[k] = r
+		return r
+	}
+	return eq1(a, b)
+}
+
+func eq1(a, b *Term) *Term {
 	if a == b {
 		return True
 	}
@@ -485,11 +555,26 @@ func Eq(a, b *Term) *Term {
 	if a.IsConst() && b.IsConst() {
 		return BoolT(!distinctConsts(a, b))
 	}
+	if a.Sort == StringS {
+		// a concatenation with a non-empty constant part is not empty
+		for _, p := range [][2]*Term{{a, b}, {b, a}} {
+			if p[0].Op == "str" && p[0].SVal == "" && p[1].Op == "str.++" {
+				for _, x := range p[1].Args {
+					if x.Op == "str" && x.SVal != "" {
+						return False
+					}
+				}
+			}
+		}
+	}
 	if a.Sort == IntS {
 		ba, ka := linForm(a)
 		bb, kb := linForm(b)
 		if ba == bb {
 			return BoolT(ka.Cmp(kb) == 0)
+		}
+		if knownGreater(a, b) || knownGreater(b, a) {
+			return False
 		}
 	}
 	if a.Sort == BoolS {
@@ -619,6 +704,12 @@ func Lt(a, b *Term) *Term {
 	if ba == bb {
 		return BoolT(ka.Cmp(kb) < 0)
 	}
+	if knownGreater(b, a) {
+		return True
+	}
+	if knownGreater(a, b) {
+		return False
+	}
 	return mk("<", BoolS, a, b)
 }
 func Le(a, b *Term) *Term {
@@ -629,6 +720,12 @@ func Le(a, b *Term) *Term {
 	bb, kb := linForm(b)
 	if ba == bb {
 		return BoolT(ka.Cmp(kb) <= 0)
+	}
+	if knownGreater(b, a) {
+		return True
+	}
+	if knownGreater(a, b) {
+		return False
 	}
 	return mk("<=", BoolS, a, b)
 }
@@ -1160,4 +1257,100 @@ func Symbols(t *Term, into map[string]bool, seen map[int]bool) {
 	for _, a := range t.Args {
 		Symbols(a, into, seen)
 	}
+}
+
+
+// Restrict simplifies t under the assumption that every conjunct of `pc`
+// holds: ite nodes whose condition (or its negation) is such a conjunct are
+// resolved.  Purely syntactic; sound because it only uses pc.
+func Restrict(t *Term, pc *Term) *Term {
+	facts := map[int]bool{}
+	for _, c := range conj(pc) {
+		facts[c.id] = true
+	}
+	if len(facts) == 0 {
+		return t
+	}
+	memo := map[int]*Term{}
+	var truth func(c *Term) int // 1 true, -1 false, 0 unknown
+	truth = func(c *Term) int {
+		if c.IsTrue() {
+			return 1
+		}
+		if c.IsFalse() {
+			return -1
+		}
+		if facts[c.id] {
+			return 1
+		}
+		if c.Op == "not" {
+			return -truth(c.Args[0])
+		}
+		if facts[Not(c).id] {
+			return -1
+		}
+		if c.Op == "and" {
+			all := 1
+			for _, a := range c.Args {
+				switch truth(a) {
+				case -1:
+					return -1
+				case 0:
+					all = 0
+				}
+			}
+			return all
+		}
+		if c.Op == "or" {
+			all := -1
+			for _, a := range c.Args {
+				switch truth(a) {
+				case 1:
+					return 1
+				case 0:
+					all = 0
+				}
+			}
+			return all
+		}
+		return 0
+	}
+	var rec func(t *Term, d int) *Term
+	rec = func(t *Term, d int) *Term {
+		if d > 60 || t.IsConst() || t.Op == "sym" || len(t.Args) == 0 {
+			return t
+		}
+		if r, ok := memo[t.id]; ok {
+			return r
+		}
+		var r *Term
+		switch {
+		case t.Op == "ite":
+			switch truth(t.Args[0]) {
+			case 1:
+				r = rec(t.Args[1], d+1)
+			case -1:
+				r = rec(t.Args[2], d+1)
+			default:
+				r = Ite(t.Args[0], rec(t.Args[1], d+1), rec(t.Args[2], d+1))
+			}
+		case strings.HasPrefix(t.Op, "ctor:"):
+			args := make([]*Term, len(t.Args))
+			ch := false
+			for i, a := range t.Args {
+				args[i] = rec(a, d+1)
+				ch = ch || args[i] != a
+			}
+			if ch {
+				r = mk(t.Op, t.Sort, args...)
+			} else {
+				r = t
+			}
+		default:
+			r = t
+		}
+		memo[t.id] = r
+		return r
+	}
+	return rec(t, 0)
 }
